@@ -97,6 +97,9 @@ def parents(tier):
     # dose levels a float join can trip over: molar units (1e-8, 2e-8) and two doses of one drug that agree to 7 digits
     out.append(("", {"U": "0first", "__doses__": {"1.0": 1e-8, "2.0": 2e-8}}, smaps[0], False))
     out.append(("ctl", {"U": "zlast", "__doses__": {"1.0": 1.0, "2.0": 1.0000001}}, smaps[2], True))
+    # names that are equal up to a trailing / leading blank are different samples / drugs (a loader that trims collides them)
+    out.append(("", {"U": "a "}, {"SU": "s0 "}, False))
+    out.append(("ctl", {"U": " b", "c": "c "}, {"SU": " s1"}, True))
     return out
 
 
@@ -159,22 +162,13 @@ def reference_predictions(parent, thetas):
 def check_screen(screen, ctx, label):
     """Returns list of (sig_suffix, message)."""
     smap, tmap, thetas, ref, sizes0 = ctx
-    bad = []
-    for i in range(screen.size):
-        sn = str(screen.sample_names[i])
-        if int(screen.sample_ids[i]) != smap[sn]:
-            bad.append(("sample-id", f"sample {sn!r} has id {int(screen.sample_ids[i])}, prepared simulation assigns {smap[sn]}"))
-            break
-    done = False
-    for i in range(screen.size):
-        for j in range(screen.treatment_arity):
-            key = (str(screen.treatment_names[i, j]), float(screen.treatment_doses[i, j]))
-            if int(screen.treatment_ids[i, j]) != tmap[key]:
-                bad.append(("treatment-id", f"treatment {key} has id {int(screen.treatment_ids[i, j])}, prepared simulation assigns {tmap[key]}"))
-                done = True
-                break
-        if done:
-            break
+    lens = {"sample_names": len(screen.sample_names), "sample_ids": len(screen.sample_ids), "treatment_names": len(screen.treatment_names),
+            "treatment_ids": len(screen.treatment_ids), "treatment_doses": len(screen.treatment_doses), "observations": len(screen.observations)}
+    if len(set(lens.values())) != 1:
+        return [("inconsistent-stage", f"the per-experiment arrays of this stage have different lengths: {lens}")]
+    bad = _check_ids(screen, smap, tmap, "")
+    if bad and bad[0][0].startswith("unknown"):
+        return bad
     if screen.size:
         keys = row_keys(screen)
         for ti, th in enumerate(thetas):
@@ -189,6 +183,33 @@ def check_screen(screen, ctx, label):
                 if abs(a - ra) > 1e-12 or abs(b - rb) > 1e-12:
                     bad.append(("prediction", f"posterior sample {ti} predicts {a:.6g} for {k}, stage 0 predicted {ra:.6g}"))
                     break
+        # the stage still assigns the same ids after it has been used for prediction (it will be used again)
+        if not bad:
+            bad += _check_ids(screen, smap, tmap, "-after-prediction")
+    return bad
+
+
+def _check_ids(screen, smap, tmap, suffix):
+    bad = []
+    for i in range(screen.size):
+        sn = str(screen.sample_names[i])
+        if sn not in smap:
+            return [("unknown-sample" + suffix, f"this stage has a sample {sn!r} that the prepared simulation does not know (samples {sorted(smap)})")]
+        if int(screen.sample_ids[i]) != smap[sn]:
+            bad.append(("sample-id" + suffix, f"sample {sn!r} has id {int(screen.sample_ids[i])}, prepared simulation assigns {smap[sn]}"))
+            break
+    done = False
+    for i in range(screen.size):
+        for j in range(screen.treatment_arity):
+            key = (str(screen.treatment_names[i, j]), float(screen.treatment_doses[i, j]))
+            if key not in tmap:
+                return bad + [("unknown-treatment" + suffix, f"this stage has a treatment {key} that the prepared simulation does not know")]
+            if int(screen.treatment_ids[i, j]) != tmap[key]:
+                bad.append(("treatment-id" + suffix, f"treatment {key} has id {int(screen.treatment_ids[i, j])}{' after the stage was used for prediction' if suffix else ''}, prepared simulation assigns {tmap[key]}"))
+                done = True
+                break
+        if done:
+            break
     return bad
 
 
